@@ -1,6 +1,7 @@
 package main
 
 import (
+	"strings"
 	"fmt"
 	"math/rand"
 
@@ -317,6 +318,30 @@ func manyRuleCase(r *rand.Rand, id int) *gcase {
 	return cs
 }
 
+// spanBoundaryCase: one rule application spanning exactly 2^8 / 2^16 runes (and one less, one more), re-entered at
+// the same offset after backtracking: Run is first applied inside 'Run x End', replayed from the memo table for
+// 'Run y End' and again for the bare Run. Whatever a memo entry stores about a match must not be squeezed into
+// a width the span does not fit.
+func spanBoundaryCase(id int, withProbes bool) *gcase {
+	g := &gram.Grammar{Rules: []*gram.Rule{
+		{Name: "R0", E: gram.Alt(gram.Seq(gram.Ref("Run"), gram.Lit("x"), gram.Ref("End")), gram.Seq(gram.Ref("Run"), gram.Lit("y"), gram.Ref("End")), gram.Ref("Run"))},
+		{Name: "Run", E: gram.Un(gram.KPlus, gram.Rng('a', 'w'))},
+		{Name: "End", E: gram.Un(gram.KNot, gram.Dot())},
+	}}
+	g.Number()
+	if withProbes {
+		gram.Finish(g, &gram.Profile{EnterProbes: true})
+	}
+	cs := &gcase{id: id, g: g}
+	for _, n := range []int{254, 255, 256, 257, 65534, 65535, 65536, 65537} {
+		run := strings.Repeat("abcdefgh", n/8+1)[:n]
+		for _, tail := range []string{"y", "x", "z", ""} {
+			cs.entries = append(cs.entries, entry{-1, run + tail})
+		}
+	}
+	return cs
+}
+
 func c06(c *ctx) {
 	cases := backtrackCases(c, tierN(c, 240, 5000), 16, true, false)
 	{
@@ -324,9 +349,11 @@ func c06(c *ctx) {
 		for k := 0; k < tierN(c, 2, 8); k++ {
 			cases = append(cases, manyRuleCase(r, len(cases)))
 		}
+		cases = append(cases, spanBoundaryCase(len(cases), false), spanBoundaryCase(len(cases)+1, true))
+		c.run.Count("span_boundary_grammars", 2)
 	}
 	cfgs := []config{{name: "memo", v: vPlain, memo: true}, {name: "nomemo", v: vPlain}}
-	f := &family{c: c, tag: "c06", configs: cfgs, noexec: true, history: []string{"memo"}, retries: []string{"memo", "nomemo"}, retryEqual: [2]string{"memo", "nomemo"}}
+	f := &family{c: c, tag: "c06", configs: cfgs, noexec: true, history: []string{"memo"}, retries: []string{"memo", "nomemo"}, retryEqual: [2]string{"memo", "nomemo"}, refLimit: 3000000}
 	f.judge = func(cs *gcase, e entry, it *ref.Interp, refOK bool, refEnd int, res map[string]*corpus.Res) {
 		covAccumulate(c, it)
 		id := report.Hash(cs.text, fmt.Sprint(e.rule), e.input)
@@ -399,7 +426,7 @@ func c06(c *ctx) {
 	}
 	f.run(cases)
 	requireCov(c, "retry_attempts_compared_across_configs", "memo_hits_observed", "memo_hits_in_accepting_parse", "memo_hits_in_rejecting_parse", "cases_with_potential_memo_hits_no_probes")
-	c.run.Rule = "cases: revisit-heavy grammars (alternatives A B / A C / A, lookahead followed by consumption &A A, !A ... / A, rules re-entered at the same offset from different callers; plus grammars of 270-330 keyword rules tried at the same offsets, so that rule numbers above 255 are memoised); the same compiled parser is run with Init() and Init(DisableMemoize()). Half of the grammars start every rule body with an observer predicate that logs (rule, offset) and always succeeds; the other half has no predicate at all. " +
+	c.run.Rule = "cases: revisit-heavy grammars (alternatives A B / A C / A, lookahead followed by consumption &A A, !A ... / A, rules re-entered at the same offset from different callers; plus grammars of 270-330 keyword rules tried at the same offsets, so that rule numbers above 255 are memoised; plus a rule application spanning exactly 254..257 and 65534..65537 runes that is replayed from the memo table twice); the same compiled parser is run with Init() and Init(DisableMemoize()). Half of the grammars start every rule body with an observer predicate that logs (rule, offset) and always succeeds; the other half has no predicate at all. " +
 		"Oracle: equal verdict, tokens and (on failure) error token, both equal to the reference; observer log without memo = the reference's rule entries, with memo = their first occurrences (each (rule, offset) evaluated exactly once). " +
 		"Entry rules tried in turn on one instance without Reset (the memo table and the furthest token live on): every attempt — error token and message of the failed ones, tokens of the successful one — must be the same with and without memoisation. " +
 		"distinct_nontrivial = distinct (grammar, entry, input) on which at least one memo hit was observed through the log (or, without probes, the reference re-entered a rule at the same offset)."
